@@ -1,5 +1,6 @@
 // C07: VyukovMPMCCycleQueue is a linearizable bounded FIFO (DESIGN.md 9/C07).
 #include "cont.h"
+#include "seq.h"
 #include "smr_holders.h"
 #include <cds/container/vyukov_mpmc_cycle_queue.h>
 #include <cds/intrusive/vyukov_mpmc_cycle_queue.h>
@@ -18,7 +19,7 @@ struct dyn_traits: public cc::vyukov_queue::traits { typedef cds::atomicity::ite
 struct sc_traits: public cc::vyukov_queue::traits { static constexpr bool const single_consumer = true; };
 struct istat_traits: public ci::vyukov_queue::traits { typedef cds::atomicity::item_counter item_counter; };
 
-struct Item { long v; };
+struct BItem { long v; };
 
 template <class Q, bool Static>
 struct make_q { static Q* make( int cap ) { return new Q( size_t( cap )); } };
@@ -76,7 +77,7 @@ struct VAdapter
 template <class Q>
 struct IAdapter
 {
-    BCfg cfg; std::unique_ptr<Q> q; Item items[64];
+    BCfg cfg; std::unique_ptr<Q> q; BItem items[64];
     explicit IAdapter( BCfg c ): cfg( c ) { for ( int i = 0; i < 64; ++i ) items[i].v = i; }
     static const char* property() { return "C07"; }
     void setup()
@@ -91,13 +92,13 @@ struct IAdapter
     {
         switch ( op.op ) {
         case ENQ: { int i = h.call( t, ENQ, op.a ); bool ok = q->enqueue( items[op.a & 63] ); h.ret( i, ok ); break; }
-        case DEQ: { int i = h.call( t, DEQ ); Item* p = q->dequeue(); h.ret( i, p != nullptr, p ? p->v : 0 ); break; }
+        case DEQ: { int i = h.call( t, DEQ ); BItem* p = q->dequeue(); h.ret( i, p != nullptr, p ? p->v : 0 ); break; }
         default: break;
         }
     }
     void drain( History& h )
     {
-        for ( int n = 0; n < 64; ++n ) { int i = h.call( -1, DEQ ); Item* p = q->dequeue(); h.ret( i, p != nullptr, p ? p->v : 0 ); if ( !p ) break; }
+        for ( int n = 0; n < 64; ++n ) { int i = h.call( -1, DEQ ); BItem* p = q->dequeue(); h.ret( i, p != nullptr, p ? p->v : 0 ); if ( !p ) break; }
         int i = h.call( -1, EMPTY ); h.ret( i, q->empty());
     }
     void quiescent( Result&, History const& ) {}
@@ -111,6 +112,13 @@ template <class Adapter>
 void add_family( std::string const& tname, int cap, int laps, int step )
 {
     std::string base = tname + "-cap" + std::to_string( cap ) + "-lap" + std::to_string( laps );
+    if ( vh::property() == "C20" ) {
+        // conformance with a bounded std::deque: all sequences over {enqueue (both overloads), dequeue, empty} incl. enqueue on a full ring
+        std::vector<POp> a = { { ENQ, 1, 0 }, { ENQ, 2, 0 }, { DEQ, 0, 0 }, { EMPTY, 0, 0 } };
+        TProg full; for ( int i = 0; i < cap; ++i ) full.push_back( POp{ ENQ, 40 + i, 0 } );
+        add_seq_generic<Adapter, BCfg>( g_scen, base, BCfg{ 1, cap, laps }, a, { TProg(), full }, 6, 8 );
+        return;
+    }
     std::vector<POp> alpha = { { ENQ, 0, 0 }, { DEQ, 0, 0 } };
     std::vector<TProg> seqs = sequences( alpha, 2 );
     std::vector<TProg> prefixes;
@@ -144,6 +152,12 @@ void add_sc_family( std::string const& tname, int cap, int laps )
 {
     // single consumer: thread 0 is the only consumer and uses front()/pop_front(); the others produce
     std::string base = tname + "-cap" + std::to_string( cap ) + "-lap" + std::to_string( laps );
+    if ( vh::property() == "C20" ) {
+        std::vector<POp> a = { { ENQ, 1, 0 }, { ENQ, 2, 0 }, { DEQ, 0, 0 }, { FRONT, 0, 0 }, { POP_FRONT, 0, 0 }, { EMPTY, 0, 0 } };
+        TProg full; for ( int i = 0; i < cap; ++i ) full.push_back( POp{ ENQ, 40 + i, 0 } );
+        add_seq_generic<Adapter, BCfg>( g_scen, base, BCfg{ 1, cap, laps }, a, { TProg(), full }, 5, 7 );
+        return;
+    }
     std::vector<TProg> consumers = { { { FRONT, 0, 0 }, { POP_FRONT, 0, 0 } }, { { POP_FRONT, 0, 0 }, { FRONT, 0, 0 } }, { { FRONT, 0, 0 }, { POP_FRONT, 0, 0 }, { POP_FRONT, 0, 0 } }, { { EMPTY, 0, 0 }, { POP_FRONT, 0, 0 } } };
     std::vector<TProg> producers = { { { ENQ, 1, 0 } }, { { ENQ, 1, 0 }, { ENQ, 2, 0 } }, { { ENQ, 1, 0 }, { ENQ, 2, 0 }, { ENQ, 3, 0 } } };
     int n = 0;
@@ -173,7 +187,7 @@ int main( int argc, char** argv )
     typedef cc::VyukovMPMCCycleQueue<long, st_traits<2>> vq_st2;
     typedef cc::VyukovMPMCCycleQueue<long, st_traits<4>> vq_st4;
     typedef cc::VyukovMPMCCycleQueue<Payload, sc_traits> vq_sc;
-    typedef ci::VyukovMPMCCycleQueue<Item, istat_traits> ivq;
+    typedef ci::VyukovMPMCCycleQueue<BItem, istat_traits> ivq;
 
     add_family<VAdapter<vq_dyn, false, false>>( "Vyukov-dynamic", 2, 0, 1 );
     add_family<VAdapter<vq_dyn, false, false>>( "Vyukov-dynamic", 2, 3, 1 );
